@@ -1074,6 +1074,11 @@ SDcreate(int32       fid,  /* IN: file ID */
         HGOTO_ERROR(DFE_ARGS, FAIL);
     }
 
+    /* SDend writes nothing to a file opened read-only: refuse instead of dropping the change silently */
+    if (!(handle->flags & NC_RDWR)) {
+        HGOTO_ERROR(DFE_DENIED, FAIL);
+    }
+
     /* fudge the name since its optional */
     if ((name == NULL) || (name[0] == ' ') || (name[0] == '\0'))
         name = "DataSet";
@@ -1304,6 +1309,11 @@ SDsetdimname(int32       id, /* IN: dataset ID */
     handle = SDIhandle_from_id(id, DIMTYPE);
     if (handle == NULL) {
         HGOTO_ERROR(DFE_ARGS, FAIL);
+    }
+
+    /* SDend writes nothing to a file opened read-only: refuse instead of dropping the change silently */
+    if (!(handle->flags & NC_RDWR)) {
+        HGOTO_ERROR(DFE_DENIED, FAIL);
     }
 
     /* get the dimension structure */
